@@ -44,6 +44,10 @@ class Cell(object):
         self.digest = dg(obj)
         self.groups = OrderedDict() if role in ("owner", "manager") else None   # name -> digest of stored group
         self.is_copy = False
+        # arrays that exist at construction time = the object's own data / parameter arrays; buffers that
+        # later calls create (memos) are not "its data arrays" in the sense of the statement
+        self.param_paths = {p for p, _ in walker.arrays(obj)} if role == "other" else None
+        self.probe_results = {}
 
 
 class Ownership(Machine):
@@ -71,15 +75,16 @@ class Ownership(Machine):
                        "assign_manager_across_classes", "wrong_dimension_set_rejected", "wrong_dimension_assign_rejected",
                        "scribble_sparse", "scribble_label_masks", "scribble_texture", "scribble_template",
                        "edit_value_after_assign", "edit_stored_group", "copy_pair_static_sharing_checked",
-                       "mutator_on_copy", "transform_owner", "non_pointcloud_value_rejected", "copy_of_copy")
+                       "mutator_on_copy", "transform_owner", "non_pointcloud_value_rejected", "copy_of_copy",
+                       "apply_on_copy_pair", "apply_repeated_after_other_activity")
 
     @classmethod
     def swarm(cls, rng, tier):
         return {"steps": rng.randint(4, 24 if tier == "quick" else 40), "d3": rng.random() < 0.3, "seed0": rng.getrandbits(30),
-                "w": [rng.choice([0, 1, 1, 2, 3]) for _ in range(14)]}
+                "w": [rng.choice([0, 1, 1, 2, 3]) for _ in range(15)]}
 
     OPS = ["new_owner", "new_value", "new_manager", "new_other", "set", "get", "delete", "iterate", "mgr_copy",
-           "assign", "copy", "transform", "edit", "scribble"]
+           "assign", "copy", "transform", "edit", "scribble", "apply"]
 
     @classmethod
     def draw(cls, rng, cfg):
@@ -372,8 +377,8 @@ class Ownership(Machine):
             al += list(o.transforms)
         return al
 
-    def _static_sharing(self, a, b, kind, allowed):
-        sh = walker.shared_buffers(a, b, allowed=allowed)
+    def _static_sharing(self, a, b, kind, allowed, only=None):
+        sh = walker.shared_buffers(a, b, allowed=allowed, only=only)
         self.ctx.probe("copy_pair_static_sharing_checked")
         self.ctx.require(not sh, "independent", "copy_shares_buffer_%s" % kind,
                          lambda: "copy and original share memory at %r" % (sh[:3],))
@@ -390,8 +395,10 @@ class Ownership(Machine):
             return ()
         d = walker.diff(c, src.obj, skip=SKIP)
         ctx.require(d is None and type(c) is type(src.obj), "copy", "not_equal_" + src.kind, lambda: "copy differs: %s" % d)
-        self._static_sharing(c, src.obj, src.kind, self._allowed(src.obj))
+        self._static_sharing(c, src.obj, src.kind, self._allowed(src.obj), only=src.param_paths)
         cell = Cell(c, src.role, src.kind, src.d)
+        cell.param_paths = src.param_paths
+        cell.probe_results = {k: v.copy() for k, v in src.probe_results.items()}   # equal state => equal answers
         cell.groups = None if src.groups is None else OrderedDict(src.groups)
         cell.had_dim = getattr(src, "had_dim", None)
         if src.is_copy:
@@ -461,6 +468,7 @@ class Ownership(Machine):
             self._mutate(o, op, g)
         except Exception:
             pass
+        o.probe_results = {}
         if o.is_copy:
             ctx.probe("mutator_on_copy")
         return (o,)
@@ -485,6 +493,41 @@ class Ownership(Machine):
             else:
                 x.from_vector_inplace(x.as_vector() * 1.01)
 
+    def _op_apply(self, op):
+        """A public, non-mutating operation on one side of a copy pair: apply the transform to one of three
+        fixed point sets of the same shape.  Whatever was done to OTHER objects in between, the same object must
+        give the same answer for the same points again (a copy starts with its origin's answers)."""
+        ctx = self.ctx
+        cands = [c for c in self.pool if c.role == "other" and hasattr(c.obj, "apply") and not isinstance(c.obj, LazyList)]
+        if not cands:
+            return
+        c = cands[op["i"] % len(cands)]
+        x = c.obj
+        j = op["how"] % 3
+        g = rs(1000 + j)
+        if isinstance(x, Alignment):
+            src = np.asarray(x.source.points, dtype=float)
+            W = g.dirichlet(np.ones(src.shape[0]), size=5)
+            P = W @ src                      # convex combinations of the source points: inside a PWA's domain
+        else:
+            P = g.uniform(-2, 2, size=(5, c.d or 2))
+        try:
+            r = np.asarray(x.apply(P.copy()))
+        except Exception as ex:
+            if j in c.probe_results:
+                ctx.fail("independent", "apply_now_raises_" + c.kind, repr(ex))
+            return (c,)
+        ctx.probe("apply_on_copy_pair" if c.is_copy else "apply_on_original")
+        if j in c.probe_results:
+            prev = c.probe_results[j]
+            ok = prev.shape == r.shape and float(np.abs(prev - r).max()) <= 1e-10 * (1 + float(np.abs(prev).max()))
+            ctx.require(ok, "independent", "answer_changed_by_operations_on_another_object_" + c.kind,
+                        lambda: "%s%s: apply() on the same points gives a different result than before although only other objects were used in between"
+                                % (c.kind, " (copy)" if c.is_copy else ""))
+            ctx.probe("apply_repeated_after_other_activity")
+        c.probe_results[j] = r
+        return (c,)
+
     def _op_scribble(self, op):
         """Write a sentinel through every reachable buffer (how odd: only one of them) of one object,
         except what the statement allows to be shared; the object is then retired from the pool."""
@@ -496,7 +539,7 @@ class Ownership(Machine):
         arrs = walker.arrays(c.obj)
         if which is not None and arrs:
             which = which % len(arrs)
-        paths = walker.scribble(c.obj, allowed=self._allowed(c.obj), which=which)
+        paths = walker.scribble(c.obj, allowed=self._allowed(c.obj), which=which, only=c.param_paths)
         for p in paths:
             if ".data" in p or ".indices" in p or ".indptr" in p:
                 ctx.probe("scribble_sparse")
